@@ -421,7 +421,9 @@ func cmdCheck(args []string) int {
 				}
 				vk := v.Kind + "|" + v.Label
 				perKey[vk]++
-				if perKey[vk] > 2 {
+				// a counterexample through uninterpreted values need not be a real
+				// execution: replay more of them, any that reproduces counts
+				if lim := 2 + 10*b2i(v.UsedUF); perKey[vk] > lim {
 					continue
 				}
 				if v.Model == nil {
@@ -903,6 +905,13 @@ func doReplay(repo, verif, prop, path string) int {
 	fmt.Printf("replay harness=%s inputs=%v\n  native outcome=%s msg=%q alloc_mb=%.1f reached=%v\n", w.Harness, w.Inputs, o.Outcome, o.Msg, o.AllocMB, o.Reached)
 	if o.Outcome == "assert" || o.Outcome == "panic" || o.Outcome == "crash" || (w.Expect == "alloc" && o.AllocMB > 64) {
 		fmt.Printf("VIOLATION property=%s replay=%s\n", prop, path)
+		return 1
+	}
+	return 0
+}
+
+func b2i(b bool) int {
+	if b {
 		return 1
 	}
 	return 0
